@@ -78,6 +78,7 @@ def eigh(x, **kw):
   w.tags["eigh_of"] = x
   v.tags["eigh_of"] = x
   cur().axioms_used.add("eigh: eigenvalues ascending, real; batched over leading axes")
+  cur().ghost["last_eigh"] = (w, v)
   return w, v
 
 
